@@ -130,6 +130,7 @@ type Engine struct {
 	wstreamKeys  []*smt.Term // writers the function under verification may append to (assigns wstream(..))
 	topFrameRule func(e *Engine, st *State, ref *smt.Term, kind string, pos string)
 	CheckNarrow  bool      // emit 'narrow' obligations for value-changing integer conversions
+	FoldFrame    bool      // emit the fold frame axiom (contract directive foldframe)
 	AbstractConc bool      // go statements ignored, channels opaque (constructor postconditions only)
 	OwnCheck     bool      // ownership discipline of deep copies (C17)
 	ShareCheck   bool      // sharing discipline of codecs (C18)
